@@ -204,6 +204,14 @@ class OneOf(Spec):
         return out
 
 
+class LockT(Spec):
+    label = 'lock'
+
+    def make(self, I, name):
+        from .models import LockObj
+        return LockObj(name)
+
+
 class CustomT(Spec):
     """value built by a function (I, name) -> value"""
 
@@ -241,6 +249,7 @@ class T:
     cls = ClassT
     one_of = OneOf
     custom = CustomT
+    lock = LockT()
 
 
 class Clause:
@@ -256,7 +265,8 @@ class Contract:
     def __init__(self, module, qualname, *, params, prop, requires=(), ensures=None, raises=None,
                  unwind=None, invariants=None, modifies=None, assumes=(), level='top',
                  bound_args=None, kind='function', spec_globals=None, note='', recipes=None,
-                 max_paths=5000, result_spec=None, call_raises=None, name=None):
+                 max_paths=5000, result_spec=None, call_raises=None, name=None,
+                 body_slice=None, watch_attrs=(), event_clauses=None, havoc=None):
         self.module = module
         self.qualname = qualname
         self.name = name or qualname     # identity of the contract (several contracts may describe one function)
@@ -290,6 +300,12 @@ class Contract:
         self.max_paths = max_paths
         self.result_spec = result_spec     # Spec of the result when used at a call site
         self.call_raises = call_raises     # at call sites: [(exc class, when-expr)] outcomes to fork
+        # mechanical extraction of a prefix of the body: {'stop_before': source substring of the first top-level
+        # statement NOT analysed, 'result': expression returned instead}
+        self.body_slice = body_slice
+        self.havoc = havoc or {}         # modified location 'param.field' -> Spec of its new value at call sites
+        self.watch_attrs = tuple(watch_attrs)      # attribute names whose loads/stores are recorded as events
+        self.event_clauses = event_clauses or {}   # name -> callable(list of events) -> bool  (symbolic tier only)
 
     @property
     def key(self):
